@@ -78,8 +78,13 @@ func runC10Staged(c *ctx, unit int, st [][2]int, extra int) (tr c10trace) {
 	parts := make([]string, len(st))
 	total := 0
 	bounds := []int{}
+	// every fourth profile is written with zero-padded numbers ("0100" is one hundred)
+	tfmt := "%d%s:%d"
+	if c.rng.Intn(4) == 0 {
+		tfmt = "%d%s:%0" + fmt.Sprint(2+c.rng.Intn(5)) + "d"
+	}
 	for i, s := range st {
-		parts[i] = fmt.Sprintf("%d%s:%d", s[0], u.name, s[1])
+		parts[i] = fmt.Sprintf(tfmt, s[0], u.name, s[1])
 		total += s[0]
 		bounds = append(bounds, total)
 	}
